@@ -41,6 +41,26 @@ def driven_to_end(ctx, pr, lp, others):
                   'a second loop over something else than the rest of the stream iterator')
 
 
+def source_asked_first(ctx, ld):
+    """select_iterators pairs the iterator of source resources with a finite list through zip(): zip asks its arguments left to right
+    and stops at the first that is exhausted, so the source is told that it is exhausted only if it is asked FIRST - with the finite
+    list first, the loop that drives the source to its end (END) never reaches the source's own end."""
+    run, repo = ctx.run, ctx.repo
+    si = ld.methods.get('select_iterators')
+    if si is None:
+        run.note('load.select_iterators not present: the pairing of the source iterator is decided by SEL alone')
+        return
+    sin = ctx.N(si)
+    src = sin.params[0]
+    zs = [c_ for c_ in ast.walk(sin.node) if isinstance(c_, ast.Call) and u(c_.func) == 'zip' and any(pseudo(a_) == src for a_ in c_.args)]
+    if not zs:
+        raise AnalysisError('load.select_iterators: the zip() that pairs the source iterator was not found')
+    for z in zs:
+        run.check(pseudo(z.args[0]) == src, 'END', where(repo, z), si.qualname, 'zip(<source iterator>, <finite list>)',
+                  'zip() is given the finite list before the source iterator: it stops without asking the source once more, the source '
+                  'flow is never exhausted and a failure of one of its steps at end of stream goes unnoticed')
+
+
 def wrappers(ctx, ld):
     run, repo = ctx.run, ctx.repo
     run.rule('WRAP', 'WRAPPERS: for every (descriptor, iterator) pair exactly one stream is yielded, after the upstream streams; the '
@@ -55,6 +75,7 @@ def wrappers(ctx, ld):
         raise AnalysisError('load.process_resources: pair loop not found')
     lp = loops[0]
     driven_to_end(ctx, pr, lp, [n for n in all_loops if n is not lp])
+    source_asked_first(ctx, ld)
     ok = isinstance(lp.iter, ast.Call) and u(lp.iter.func) == 'zip' and \
         [pseudo(a) for a in lp.iter.args] == ['self.resource_descriptors', 'self.iterators']
     run.check(ok, 'WRAP', where(repo, lp), pr.qualname, 'for descriptor, it in zip(self.resource_descriptors, self.iterators)',
@@ -333,6 +354,18 @@ def headers_and_tables(ctx, ld):
                 dflt[c.args[0].value] = ast.literal_eval(c.args[1])
             except Exception:
                 dflt[c.args[0].value] = u(c.args[1])
+    # the schema is inferred with confidence=1: a type is declared only if EVERY sampled cell casts to it (tableschema's default of 0.75
+    # declares integer for a column in which a quarter of the cells are text - those rows then fail to cast or are dropped)
+    infs = [c_ for c_ in ast.walk(sp.node) if isinstance(c_, ast.Call) and isinstance(c_.func, ast.Attribute) and c_.func.attr == 'infer'
+            and any(k.arg == 'guesser_cls' for k in c_.keywords)]
+    if len(infs) != 1:
+        raise AnalysisError('load: the Schema.infer(...) call was not found')
+    kwi = {k.arg: k.value for k in infs[0].keywords}
+    run.check(isinstance(kwi.get('confidence'), ast.Constant) and kwi['confidence'].value == 1 and u(kwi.get('headers', ast.Constant(value=None))).endswith('.headers')
+              and u(kwi.get('guesser_cls')) == 'self.guesser', 'OPT', where(repo, infs[0]), sp.qualname,
+              'Schema.infer(sample, headers=stream.headers, confidence=1, guesser_cls=self.guesser)',
+              'the schema is not inferred with confidence=1 from the stream headers with the configured guesser: a column is typed although '
+              'some of its sampled cells do not cast')
     want = {'ignore_blank_headers': True, 'skip_rows': [{'type': 'preset', 'value': 'auto'}], 'headers': 1, 'sample_size': 1000}
     for k_, v_ in want.items():
         run.check(dflt.get(k_) == v_, 'OPT', sp.where, sp.qualname, 'default %s = %r' % (k_, v_),
